@@ -37,9 +37,12 @@ def c03(ctx, replay):
     chunks = "whole,one,split2" if ctx.quick() else "whole,one,split2,rand"
     modes = "ct,nct" if ctx.quick() else "ct,nct,c_nct,s_nct"
     sizes = "120-130,4085-4105,8180-8200" if ctx.quick() else "120-130,4080-4112,8176-8208,12270-12300,32755-32780,65525-65545"
+    rtrace = ctx.path("c03recv.ndjson")
     rep = ctx.drive("recv", ["-letters", lp, "-rows-off", off, "-rows-on", on, "-seed", ctx.seed, "-chunks", chunks, "-modes-on", modes, "-sizes", sizes,
-                            "-fuzz", 20000 if ctx.quick() else 400000], timeout=7200)
+                            "-fuzz", 20000 if ctx.quick() else 400000, "-recv-trace", rtrace, "-trace-every", 20 if ctx.quick() else 40], timeout=7200)
     ctx.absorb(rep)
+    # (C) the library's own account of what it read (hook events of every 20th connection) replayed through WSRecv's decoder
+    core.recv_validate(ctx, rtrace, SIG_RECV_C03)
     ctx.extra["exhaustive"] = True
     ctx.extra["rule"] = ("every frame stream of at most %d letters over the 43-letter alphabet of spec/WSRecv.tla "
                          "(valid frames and single-violation frames) that stops at its first terminal letter, "
@@ -71,8 +74,12 @@ def c04(ctx, replay):
         args += ["-bufs", "1,512", "-modes-on", "ct", "-chunks", "whole"]
     else:
         args += ["-bufs", "1,2,7,512,4096,32768", "-modes-on", "ct,nct", "-chunks", "whole,rand", "-stride", "3"]
+    rtrace = ctx.path("c04recv.ndjson")
+    args += ["-recv-trace", rtrace, "-trace-every", 40 if ctx.quick() else 200]
     rep = ctx.drive("cut", args, timeout=7200)
     ctx.absorb(rep)
+    # (C) end-of-message events of the sampled connections against the decoder state (a clean end needs a completely read FIN frame)
+    core.recv_validate(ctx, rtrace, SIG_RECV_C04 | SIG_RECV_FRAMING)
     ctx.extra["exhaustive"] = True
     ctx.extra["rule"] = ("every valid stream of at most %d frames (fragmented, empty fragments, interleaved ping/pong, compressed) "
                          "cut at EVERY byte offset 0..len, ended by EOF and by a transport error, x role x read-buffer size x "
@@ -89,8 +96,12 @@ def c08(ctx, replay):
     args = ["-rows", rows, "-alloc-rows", arows, "-seed", ctx.seed]
     if ctx.quick():
         pass
+    rtrace = ctx.path("c08recv.ndjson")
+    args += ["-recv-trace", rtrace, "-trace-every", 4 if ctx.quick() else 2]
     rep = ctx.drive("limit", args)
     ctx.absorb(rep)
+    # (C) bytes handed over per message against the limit in force when the message started
+    core.recv_validate(ctx, rtrace, SIG_RECV_C08 | SIG_RECV_C04)
     ctx.extra["exhaustive"] = not ctx.quick()
     ctx.extra["rule"] = ("limits {-1,0,1,125,4096,32768(default, with and without SetReadLimit),65536} x sizes {L-1,L,L+1,2L+3,40L,7} x 6 "
                          "fragmentations x compressed/plain, two-message programs changing the limit in between, declared lengths "
@@ -129,6 +140,21 @@ SIG_C06 = {"close-returned-with-connection-open", "received-close-echoed-with-an
            "read-succeeded-after-close", "close-after-close-not-ErrClosed", "closenow-after-close-not-ErrClosed"}
 
 
+# signatures of TraceRecv.tla (inbound side of every recorded execution, replayed through WSRecv's decoder)
+SIG_RECV_FRAMING = {"frame-header-parsed-inside-previous-payload", "frame-parsed-that-the-peer-never-sent", "frame-header-differs-from-the-one-sent",
+                    "payload-read-beyond-the-frame", "control-payload-not-of-the-current-frame"}
+SIG_RECV_C03 = SIG_RECV_FRAMING | {"control-frame-with-violation-processed", "violating-frame-acted-on", "invalid-close-frame-accepted",
+                                   "message-started-from-a-violating-frame", "message-start-does-not-match-its-first-frame",
+                                   "close-reported-without-a-close-frame", "close-error-differs-from-the-frame", "bytes-handed-over-without-a-message"}
+SIG_RECV_C04 = {"clean-end-of-an-incomplete-message", "message-reported-complete-with-bytes-missing", "more-bytes-handed-over-than-received-for-the-message"}
+SIG_RECV_C08 = {"more-than-limit-plus-one-bytes-handed-over", "message-beyond-the-limit-reported-complete", "read-limit-error-before-the-limit"}
+SIG_RECV_C15 = {"pong-written-without-a-received-ping"}
+SIG_RECV_ALL = SIG_RECV_C03 | SIG_RECV_C04 | SIG_RECV_C08 | SIG_RECV_C15
+SIG_C05 |= SIG_RECV_FRAMING | SIG_RECV_C04
+SIG_C15 |= SIG_RECV_C15
+SIG_C06 |= {"invalid-close-frame-accepted", "close-error-differs-from-the-frame", "close-reported-without-a-close-frame"}
+
+
 def wsconn_model(ctx, cfgs):
     for c in cfgs:
         rec, _ = ctx.tlc("WSConn", "WSConn.%s.cfg" % c, name="WSConn-" + c, timeout=3000)
@@ -154,6 +180,8 @@ def conc_campaign(ctx, n, only, extra_args=()):
     absorb_rejections(ctx, rej, "TraceConn", conn, only=only)
     rej, _ = trace_validate(ctx, "TraceWire", "TraceWire.cfg", wire, name="TraceWire")
     absorb_rejections(ctx, rej, "TraceWire", wire, only=only)
+    if only is None or (set(only) & SIG_RECV_ALL):
+        core.recv_validate(ctx, conn, only)
     ctx.extra["rule"] = ("seeded concurrent executions of the real Conn (1-3 writers using Write and streaming Writer, 0-2 pingers, "
                          "reader loop / CloseRead / none, closer in {Close, CloseNow, context cancel, peer Close, none}) against an "
                          "independent raw peer over a chunking, optionally zero-window transport with yields at hooks; every hook event "
